@@ -331,4 +331,4 @@ pub fn run(rep: &Report) {
     rep.floor("data-transfer evaluations", rep.evals(), 100_000);
 }
 
-pub const RULE: &str = "every operand-kind pair of MOV (22), XCHG (10), PUSH/POP (8) plus PUSHF/POPF/LAHF/SAHF/XLAT through Interpreter::parse from hostile states (SS:SP in {0,1,2,0xFFFE,0xFFFF, top of 1 MiB}), LAHF/SAHF over all 2^16 flag words, random push/pop/pushf/popf histories run in lock-step with a reference stack with memory persisting across steps, and the same forms from source text through the real assembler. Whole-state comparison after every step. Distinct = (operand-kind class, accept-set member, SP class) resp. (history length, final depth). Mixed-family histories over all 13 instruction classes; operands aimed at the last bytes of memory.";
+pub const RULE: &str = "every operand-kind pair of MOV (22), XCHG (10), PUSH/POP (8) plus PUSHF/POPF/LAHF/SAHF/XLAT through Interpreter::parse from hostile states (SS:SP in {0,1,2,0xFFFE,0xFFFF, top of 1 MiB}), LAHF/SAHF over all 2^16 flag words, random push/pop/pushf/popf histories run in lock-step with a reference stack with memory persisting across steps, and the same forms from source text through the real assembler. Whole-state comparison after every step. Distinct = (operand-kind class, accept-set member, SP class) resp. (history length, final depth). Mixed-family histories over all 13 instruction classes; operands aimed at the last bytes of memory. Every fourth source form passes its memory / label operand as a macro argument.";
